@@ -1,4 +1,4 @@
-"""PROTOTYPE C18: rule-detected codemods act on what their own detector reports; re-detection on rewritten code is clean."""
+"""C18: rule-detected codemods act on what their own detector reports; re-detection on rewritten code is clean."""
 import ast, base64, collections, hashlib, json, os, random, re, sys
 from vf import corpus, gen
 from vf.checks import grid
@@ -48,64 +48,101 @@ def declined(cm, src):
 
 def plan(tier, seed):
     jobs = [j for j in grid.plan(tier, seed) if corpus.is_semgrep_detected(j["cid"])]
-    # add non-ASCII-before-site layout for every file (same line): prefix statement on the same line is not generally possible; add a unicode string statement joined with ';' before simple one-line sites
+    # non-ASCII text before the site on the same line: a unicode string statement joined with ';' in front of a simple one-line site
     for j in jobs:
-        j["argv"] = j["argv"] + ["--verbose"]; j["full_log"] = True
+        j["monitors"] = {"snap": False, "sg_locs": True}; j["base_of"] = {}
         extra = {}
         for name, blob in list(j["files"].items()):
-            src = unb(blob).decode("utf-8", "replace")
+            try: src = unb(blob).decode("utf-8")
+            except UnicodeDecodeError: continue
+            if src.startswith("﻿"): continue
             lines = src.splitlines(keepends=True)
-            for k in range(len(lines) - 1, -1, -1):
-                l = lines[k]
-                if l.strip() and not l.startswith((" ", "\t", "#", "import ", "from ", "@", "def ", "class ", "with ", "if ", "for ", "try", "else", "elif")) and "(" in l and not l.rstrip().endswith((",", "(", "\\", ":")) and k == len(lines) - 1:
-                    lines[k] = "vf_u = 'é✓'; " + l
-                    new = "".join(lines)
-                    try: compile(new, "<s>", "exec")
-                    except SyntaxError: break
-                    h = hashlib.sha1(new.encode()).hexdigest()[:12]
-                    extra[f"u_{h}.py"] = b64(new.encode()); j["labels"][f"u_{h}.py"] = tuple(j["labels"][name]) + ("nonascii-same-line",)
-                    break
+            k = len(lines) - 1
+            if k < 0: continue
+            l = lines[k]
+            if l.strip() and not l.startswith((" ", "\t", "#", "import ", "from ", "@", "def ", "class ", "with ", "if ", "for ", "try", "else", "elif")) and "(" in l and not l.rstrip().endswith((",", "(", "\\", ":")):
+                lines[k] = "vf_u = 'é✓'; " + l
+                new = "".join(lines)
+                try: compile(new, "<s>", "exec")
+                except SyntaxError: continue
+                h = hashlib.sha1(new.encode()).hexdigest()[:12]
+                extra[f"u_{h}.py"] = b64(new.encode()); j["labels"][f"u_{h}.py"] = tuple(j["labels"][name]) + ("nonascii-same-line",); j["base_of"][f"u_{h}.py"] = name
         if tier == "quick": extra = dict(list(extra.items())[:6])
         j["files"].update(extra)
     return jobs
 
-def flagged(log):
-    out = {}
-    for l in log.splitlines():
-        m = re.match(r"(\d+) findings for .*/proj/(.+)$", l)
-        if m: out[m.group(2)] = int(m.group(1))
-    return out
+def own_calls(run, proj):
+    """per file: number of locations the codemod's own semgrep invocation(s) reported, and the locations"""
+    counts = collections.Counter(); locs = collections.defaultdict(list)
+    for e in run["trace"]:
+        if e["k"] != "sg_call" or e["kind"] != "own": continue
+        for rule, d in (e.get("locs") or {}).items():
+            for p, ls in d.items():
+                rel = os.path.relpath(p, proj) if os.path.isabs(p) else p
+                counts[rel] += len(ls); locs[rel] += ls
+    return counts, locs
+
+def rewritten_statements(before, after):
+    """line ranges (in `after` numbering) of the smallest statements containing a line the run changed or inserted"""
+    import difflib
+    A = before.splitlines(); B = after.splitlines(); ch = set()
+    for tag, i1, i2, j1, j2 in difflib.SequenceMatcher(None, A, B, autojunk=False).get_opcodes():
+        if tag in ("replace", "insert"):
+            for jn in range(j1, j2): ch.add(jn + 1)
+    try: t = ast.parse(after)
+    except SyntaxError: return [(c, c) for c in sorted(ch)]
+    out = set()
+    for c in ch:
+        best = None
+        for n in ast.walk(t):
+            if isinstance(n, ast.stmt) and n.lineno <= c <= (n.end_lineno or n.lineno):
+                # header of a compound statement only (its body is other statements)
+                end = n.end_lineno or n.lineno
+                if hasattr(n, "body") and isinstance(getattr(n, "body"), list) and n.body and isinstance(n.body[0], ast.stmt): end = max(n.lineno, n.body[0].lineno - 1)
+                if n.lineno <= c <= end and (best is None or (end - n.lineno) <= (best[1] - best[0])): best = (n.lineno, end)
+        out.add(best or (c, c))
+    return sorted(out)
 
 def judge(job, res):
     v = []; st = collections.Counter(); nt = []
     r1, r2 = res["runs"]; cm = job["cid"].split("/")[1]
     if r1["rc"] != 0 or r1["exc"]: st["run_failed"] += 1; return v, st, nt
-    f1 = flagged(r1["log"]); failed = {os.path.basename(f) for r in r1["report"]["results"] for f in (r.get("failedFiles") or [])}
+    f1, _ = own_calls(r1, r1["proj"]); failed = {os.path.relpath(f, r1["proj"]) if os.path.isabs(f) else f for r in r1["report"]["results"] for f in (r.get("failedFiles") or [])}
+    pipes = {os.path.relpath(e["path"], r1["proj"]): e for e in r1["trace"] if e["k"] == "pipe"}
+    rewritten = {n for n, e in pipes.items() if e["before"] is not None and e["after"] is not None and e["before"] != e["after"]}
     for name, blob in job["files"].items():
         if f1.get(name, 0) == 0: continue
-        nt.append((job["id"], name)); st["flagged:" + job["cid"]] += 1
-        src = unb(blob).decode("utf-8-sig", "replace")
-        changed = r1["tree"].get(name) != "F:" + blob
+        nt.append((job["id"], name)); st["flagged:" + job["cid"]] += 1; st["fired:" + job["cid"]] += 1
+        try: src = unb(blob).decode("utf-8-sig")
+        except UnicodeDecodeError: continue
         lab = tuple(job["labels"].get(name, ()))
-        if not changed and name not in failed:
-            d = declined(cm, src)
-            if d: st["declined:" + d] += 1
-            else:
-                key = f"{cm}/nonascii-column-mismatch" if "nonascii-same-line" in lab else f"{cm}/flagged-not-rewritten"
-                v.append(Violation("C18", key, f"{f1[name]} finding(s) reported by the codemod's own rule but file neither rewritten nor failed", {"codemod": job["cid"], "labels": lab, "src": src}))
-    if r2["rc"] == 0:
-        f2 = flagged(r2["log"])
-        for name, n in f2.items():
-            if n and r1["tree"].get(name) != "F:" + job["files"].get(name, ""):
-                src = unb(r1["tree"][name][2:]).decode("utf-8-sig", "replace")
-                d = declined(cm, unb(job["files"][name]).decode("utf-8-sig", "replace"))
-                # only locations inside rewritten statements count; approximation: all sites of the file were rewritten if flagged count after >= before
-                if d: st["declined2:" + d] += 1
-                elif n >= f1.get(name, 0): v.append(Violation("C18", f"{cm}/reflagged-after-fix", f"detector still reports {n} location(s) in rewritten file", {"codemod": job["cid"], "after": src}))
+        if name in rewritten: st["flagged_and_rewritten"] += 1; continue
+        if name in failed: st["flagged_and_failed"] += 1; continue
+        d = declined(cm, src)
+        if d: st["declined:" + d] += 1; continue
+        base = job.get("base_of", {}).get(name)
+        if "nonascii-same-line" in lab and base in rewritten: key = "nonascii-column-mismatch"   # the same program without the non-ASCII prefix was rewritten in this very run
+        else: key = f"{cm}/flagged-not-rewritten"
+        v.append(Violation("C18", key, f"{cm}: {f1[name]} location(s) reported by the codemod's own rule in {name} but the file was neither rewritten nor listed as failed", {"codemod": job["cid"], "labels": lab, "src": src, "file": name}))
+    if r2["rc"] == 0 and not r2["exc"]:
+        f2, l2 = own_calls(r2, r2["proj"])
+        for name in sorted(rewritten):
+            if not f2.get(name): st["clean_after_fix"] += 1; continue
+            e = pipes[name]
+            try: before, after = unb(e["before"]).decode("utf-8-sig"), unb(e["after"]).decode("utf-8-sig")
+            except UnicodeDecodeError: continue
+            stmts = rewritten_statements(before, after)
+            hits = [l for l in l2[name] if not (l[0] == l[2] and l[1] == l[3]) and any(a <= l[0] <= b or a <= l[2] <= b or (l[0] <= a and b <= l[2]) for a, b in stmts)]
+            if not hits: st["reflagged_outside_rewritten_code"] += 1; continue
+            orig = unb(job["files"][name]).decode("utf-8-sig", "replace")
+            d = declined(cm, orig)
+            if d: st["declined2:" + d] += 1; continue
+            v.append(Violation("C18", f"{cm}/reflagged-after-fix", f"{cm}: the detector still reports {hits[:3]} inside statement(s) {stmts[:3]} that the run rewrote in {name}", {"codemod": job["cid"], "before": before, "after": after, "locations": hits, "rewritten_statements": stmts}))
     return v, st, nt
 
 def main():
-    return run_check("C18", "exploration", plan, judge, "22 semgrep-detected codemods x spelling/context/layout variants (+ non-ASCII before the site on the same line); flagged by own rule => rewritten or failed unless structurally declined; second detector pass; non-trivial = detector flagged the file", 100, deciding_counters=("semgrep_own", "pipe_libcst"), timeout=900, module=__name__)
+    return run_check("C18", "exploration", plan, judge, "the 22 semgrep-detected codemods x seed x context x import-style x layout variants (+ non-ASCII text before the site on the same line), 50 files per project; H-sg records what the codemod's own semgrep invocation reported per file; flagged => rewritten or failed unless structurally declined; second run: no reported location inside a statement the first run rewrote; non-trivial = the detector flagged the file",
+                     100, deciding_counters=("semgrep_own", "pipe_libcst"), timeout=900, module=__name__)
 
 if __name__ == "__main__":
     sys.exit(main())
